@@ -784,3 +784,98 @@ T("C07", "twin-derive-complete-flag", C2, _DERIVE_TEST,
 T("C07", "twin-derive-from-aes-rand-classmethod", C2, _DERIVE, "                    self.beacon_keys = BeaconKeys.from_aes_rand(metadata.aes_rand)\n")
 T("C07", "twin-derive-keyword-fields", C2, _DERIVE,
   "                    derived = derive_aes_hmac_keys(metadata.aes_rand)\n                    self.beacon_keys = BeaconKeys(hmac_key=derived[1], aes_key=derived[0])\n")
+
+# ------------------------------------------------------------------------------------------------ R14: a check-in yields its metadata whether or not it is cached
+_MD_TEST = "        if c2data.metadata and self.priv:\n"
+_MD_LOOKUP = (
+    "            metadata = self.metadata_cache.get(c2data.metadata)\n"
+    "            if metadata is None:\n"
+)
+_MD_YIELD = (
+    "                    logging.info(\"Derived AES + HMAC keys from %r\", metadata)\n"
+    "            yield metadata\n"
+)
+_MD_BLOCK_HEAD = _MD_TEST + _MD_LOOKUP
+_MD_DEF = "    def iter_recover_http(\n        self, http: Union[bytes, HttpRequest, HttpResponse], keys: Optional[BeaconKeys] = None\n    ) -> Iterator[C2Packet]:\n"
+# the yield slips into the cache-miss branch: a repeated check-in is decoded to nothing
+M("C07", "metadata-yielded-only-when-freshly-decrypted", C2, _MD_YIELD, _MD_YIELD.replace("            yield metadata\n", "                yield metadata\n"), "C07.R14")
+# the whole block is skipped for a blob that is already cached
+M("C07", "metadata-block-skipped-when-cached", C2, _MD_TEST, "        if c2data.metadata and self.priv and c2data.metadata not in self.metadata_cache:\n", "C07.R14")
+# `in` test with an early `continue`-like exit of the block
+M("C07", "metadata-cached-branch-without-yield", C2, _MD_BLOCK_HEAD,
+  "        if c2data.metadata and self.priv and c2data.metadata in self.metadata_cache:\n"
+  "            logging.debug(\"metadata already known\")\n"
+  "        elif c2data.metadata and self.priv:\n" + _MD_LOOKUP, "C07.R14")
+# generator helper whose cache-hit branch yields nothing (bare return instead of the seed's `return <value>`)
+_MD_HELPER = (
+    "    def _cached_or_decrypted(self, blob):\n"
+    "        cached = self.metadata_cache.get(blob)\n"
+    "        if cached is not None:\n"
+    "{hit}"
+    "        metadata = decrypt_metadata(blob, self.priv)\n"
+    "        self.metadata_cache[blob] = metadata\n"
+    "        if not all([self.beacon_keys.aes_key, self.beacon_keys.hmac_key]):\n"
+    "            aes_key, hmac_key = derive_aes_hmac_keys(metadata.aes_rand)\n"
+    "            self.beacon_keys = BeaconKeys(aes_key, hmac_key)\n"
+    "        yield metadata\n"
+    "\n"
+)
+_MD_WHOLE = (
+    _MD_BLOCK_HEAD +
+    "                metadata = decrypt_metadata(c2data.metadata, self.priv)\n"
+    "                self.metadata_cache[c2data.metadata] = metadata\n"
+    "                # if we do not have an AES key or HMAC key yet, we derive it.\n"
+    "                if not all([self.beacon_keys.aes_key, self.beacon_keys.hmac_key]):\n"
+    "                    aes_key, hmac_key = derive_aes_hmac_keys(metadata.aes_rand)\n"
+    "                    self.beacon_keys = BeaconKeys(aes_key, hmac_key)\n" + _MD_YIELD
+)
+M("C07", "metadata-generator-helper-silent-on-hit", C2, "", "", "C07.R14", edits=[
+    (C2, _MD_DEF, _MD_HELPER.format(hit="            return\n") + _MD_DEF),
+    (C2, _MD_WHOLE, _MD_TEST + "            yield from self._cached_or_decrypted(c2data.metadata)\n"),
+])
+# twins: the same refactoring done right, other spellings of the lookup
+T("C07", "twin-metadata-generator-helper", C2, "", "", edits=[
+    (C2, _MD_DEF, _MD_HELPER.format(hit="            yield cached\n            return\n") + _MD_DEF),
+    (C2, _MD_WHOLE, _MD_TEST + "            yield from self._cached_or_decrypted(c2data.metadata)\n"),
+])
+T("C07", "twin-metadata-in-test-else", C2, _MD_WHOLE,
+  _MD_TEST +
+  "            blob = c2data.metadata\n"
+  "            if blob in self.metadata_cache:\n"
+  "                metadata = self.metadata_cache[blob]\n"
+  "            else:\n"
+  "                metadata = decrypt_metadata(blob, self.priv)\n"
+  "                self.metadata_cache[blob] = metadata\n"
+  "                if not all([self.beacon_keys.aes_key, self.beacon_keys.hmac_key]):\n"
+  "                    aes_key, hmac_key = derive_aes_hmac_keys(metadata.aes_rand)\n"
+  "                    self.beacon_keys = BeaconKeys(aes_key, hmac_key)\n"
+  "            yield metadata\n")
+T("C07", "twin-metadata-try-keyerror", C2, _MD_WHOLE,
+  _MD_TEST +
+  "            try:\n"
+  "                metadata = self.metadata_cache[c2data.metadata]\n"
+  "            except KeyError:\n"
+  "                metadata = decrypt_metadata(c2data.metadata, self.priv)\n"
+  "                self.metadata_cache[c2data.metadata] = metadata\n"
+  "                if not all([self.beacon_keys.aes_key, self.beacon_keys.hmac_key]):\n"
+  "                    aes_key, hmac_key = derive_aes_hmac_keys(metadata.aes_rand)\n"
+  "                    self.beacon_keys = BeaconKeys(aes_key, hmac_key)\n"
+  "            yield metadata\n")
+T("C07", "twin-metadata-yield-in-both-branches", C2, _MD_YIELD,
+  "                    logging.info(\"Derived AES + HMAC keys from %r\", metadata)\n"
+  "                yield metadata\n"
+  "            else:\n"
+  "                yield metadata\n")
+
+# ------------------------------------------------------------------------------------------------ R15: the routed uri is the path as it is on the wire
+_URI_PATH = "    uri = result.path\n"
+_URI_IMPORT = "from urllib.parse import parse_qsl, urlsplit\n"
+M("C07", "uri-case-folded", C2, _URI_PATH, "    uri = result.path.lower()\n", "C07.R15")
+M("C07", "uri-double-slashes-collapsed", C2, _URI_PATH, "    path = result.path\n    uri = path.replace(b\"//\", b\"/\")\n", "C07.R15")
+M("C07", "uri-unquoted-before-split", C2, "", "", "C07.R15", edits=[
+    (C2, _URI_IMPORT, "from urllib.parse import parse_qsl, unquote, urlsplit\n"),
+    (C2, "    result = urlsplit(uri)\n", "    result = urlsplit(unquote(uri.decode()).encode())\n"),
+])
+T("C07", "twin-uri-path-inline", C2, "    result = urlsplit(uri)\n    uri = result.path\n", "    result = urlsplit(uri)\n    uri = urlsplit(uri).path\n")
+T("C07", "twin-uri-path-via-tuple", C2, _URI_PATH, "    _scheme, _netloc, uri, _query, _fragment = result\n")
+T("C07", "twin-uri-tokens-by-index", C2, "    method, uri, _version = parts\n", "    method, uri = parts[0], parts[1]\n")
